@@ -31,7 +31,7 @@ ASSUMPTIONS = ['network bitcoinlib_test: fee estimate and broadcast are answered
                'change ownership is decided by reference BIP32 derivation of the wallet\'s change chain (indices 0..39)']
 
 DUST = 1000
-UTXO_VALUES = [999, 1000, 1001, 5000, 100000, 100000000]
+UTXO_VALUES = [999, 1000, 1001, 8000, 100000, 100000000]
 
 
 def selftest():
@@ -323,10 +323,10 @@ def _spk_of(address):
 
 SUBS = {'req': sub_req}
 
-DEFAULT = {'method': 'send', 'amount': 5000, 'fee': None, 'nchange': 1, 'recips': 'ext', 'min_confirms': 1,
+DEFAULT = {'method': 'send', 'amount': 2000, 'fee': None, 'nchange': 1, 'recips': 'ext', 'min_confirms': 1,
            'max_utxos': None}
 DIMS = {
-    'amount': [999, 1000, 1001, 99000, 'allbutfee', 'exact', 'toomuch', 10 ** 8 - 20000],
+    'amount': [999, 1000, 1001, 5000, 99000, 'allbutfee', 'exact', 'toomuch', 10 ** 8 - 20000],
     'fee': ['low', 'high', 0, 500, 3000, 100000, 10 ** 6, 'gtfunds'],
     'nchange': [2, 3, 5, 0],
     'recips': ['own', 'ext+ext2', 'ext+own', 'ext+ext'],
@@ -389,8 +389,8 @@ def run(ctx):
     req2 = _requests(2) if not q else None
     sets_small = _utxo_sets(2 if q else 3, [[10], [0, 10], [1, 0]])
     # funded sets used with the larger request menus
-    rich = [[[100000, 10], [100000, 10], [5000, 10]], [[100000000, 10]], [[100000000, 10], [1000, 0], [999, 10]],
-            [[5000, 10], [5000, 1], [5000, 0]]]
+    rich = [[[100000, 10], [100000, 10], [8000, 10]], [[100000000, 10]], [[100000000, 10], [1000, 0], [999, 10]],
+            [[8000, 10], [8000, 1], [8000, 0]]]
     if not q:
         rich += [[[100000000, 10], [100000000, 10], [100000, 3], [1001, 10]], [[100000, 10]] * 5]
     for us in sets_small:
